@@ -782,6 +782,47 @@ def _oracle_sets_check(ck, pid, tier, ds, what):
     return out
 
 
+def _nest_reuse_eval(arg):
+    """One outer block object nested several times (and both associativity variants built from the same block objects): every Nest must equal the Nest of
+    freshly built blocks in trial count and exhausted solution set (C25: 'length is outer x inner', 'nesting is associative' — for the blocks as given)."""
+    variant = arg
+    import sweetpea as sp
+
+    def blocks():
+        c = sp.Factor("c", ["r", "g"])
+        d = sp.Factor("d", ["x", "y"])
+        e = sp.Factor("e", ["p", "q"])
+        outer = sp.CrossBlock([c], [c], [sp.MinimumTrials(4)] if variant == "outer-mintrials" else ([sp.Pin(0, (c, "r"))] if variant == "outer-pin" else []))
+        return outer, sp.CrossBlock([d], [d], []), sp.CrossBlock([e], [e], [])
+    def facts(b):
+        if b.trials_per_sample() > 16:          # a trial count this far off is the finding; do not enumerate
+            return b.trials_per_sample(), []
+        res = SC.runner.synth(b, 600, "IterateSATGen")
+        names = sorted(k for k in res[0].keys()) if res else []
+        return b.trials_per_sample(), sorted(set(tuple((k, tuple(x[k])) for k in names) for x in res))
+    out = {"variant": variant, "diffs": []}
+    try:
+        fo, fd, fe = blocks()
+        want = {"nest(o,d)": facts(sp.Nest(fo, fd))}
+        fo, fd, fe = blocks()
+        want["nest(o,e)"] = facts(sp.Nest(fo, fe))
+        fo, fd, fe = blocks()
+        want["nest(nest(o,d),e)"] = facts(sp.Nest(sp.Nest(fo, fd), fe))
+        fo, fd, fe = blocks()
+        want["nest(o,nest(d,e))"] = facts(sp.Nest(fo, sp.Nest(fd, fe)))
+        o, d, e = blocks()          # the same block objects throughout
+        got = {"nest(o,d)": facts(sp.Nest(o, d)), "nest(o,e)": facts(sp.Nest(o, e)),
+               "nest(nest(o,d),e)": facts(sp.Nest(sp.Nest(o, d), e)), "nest(o,nest(d,e))": facts(sp.Nest(o, sp.Nest(d, e)))}
+        for k in want:
+            if want[k] != got[k]:
+                out["diffs"].append([k, want[k][0], len(want[k][1]), got[k][0], len(got[k][1])])
+        if want["nest(nest(o,d),e)"] != want["nest(o,nest(d,e))"]:
+            out["diffs"].append(["associativity(fresh)", want["nest(nest(o,d),e)"][0], len(want["nest(nest(o,d),e)"][1]), want["nest(o,nest(d,e))"][0], len(want["nest(o,nest(d,e))"][1])])
+    except Exception as ex:
+        out["exception"] = [type(ex).__name__, str(ex)[:200]]
+    return out
+
+
 def c25(tier):
     ck = Check("C25", tier, "other",
                "Nest(outer, inner) over D: trial count = outer x inner (no preamble), outer crossed factors constant within each inner run, outer crossing "
@@ -806,6 +847,20 @@ def c25(tier):
                          _replay(byname["nest-nest"], strategy="IterateSATGen"), tags=dict(kind="assoc"))
     else:
         ck.oblig("C25.assoc(nest-nest)", "E", "undecided", detail="a nesting did not finish")
+    # one outer block object nested repeatedly
+    vs = ["plain", "outer-mintrials", "outer-pin"]
+    for v, (pst, r) in zip(vs, SC.runner.pmap(_nest_reuse_eval, vs, jobs=3, timeout=120)):
+        oid = f"C25.reuse({v})"
+        if pst != "ok" or "exception" in r:
+            ck.oblig(oid, "E", "undecided", detail=str(r)[:200])
+            continue
+        ck.count(("reuse", v))
+        ok = not r["diffs"]
+        ck.oblig(oid, "E", "passed" if ok else "failed", detail=None if ok else str(r["diffs"][0]))
+        if not ok:
+            k, tw, nw, tg, ng = r["diffs"][0]
+            ck.violation("C25.reuse", f"reuse:{v}:{k}", f"outer block ({v}) nested repeatedly: {k} has {tg} trials / {ng} sequences, from freshly built blocks {tw} trials / {nw} sequences",
+                         dict(replay_kind="nest-reuse", variant=v, diff=r["diffs"][0]), tags=dict(kind="reuse", variant=v))
     ck.rule = "one case per Nest design of the curated core (outer/inner sizes 2-3, constraints on inner block, on the Nest, uncrossed outer factor, nested Nest)"
     ck.trust(*TRUST)
     ck.assume("run-length / Pin / count constraints on the OUTER block are outside the reference reading (docs do not say trials or groups); those designs are only compared between samplers (C07)")
